@@ -103,4 +103,47 @@ def monSsLp (amp : Nat) (decimals before after : List Nat) (supplyBefore supplyA
   -- D1/S1 ≥ D0/S0 up to two units of D on either side
   firstFail [(db * supplyAfter ≤ (da + 2 * SS_K) * supplyBefore + 2 * SS_K * supplyAfter, "C02-ss-dilution")]
 
+/-- one step of the integer Newton iteration of `calculate_d_core`, with unbounded integers (no
+    overflow): `xs` are the balances as passed to `calculate_d_core` -/
+def nextDExact (amp : Nat) (xs : List Nat) (d : Nat) : Nat :=
+  let n := xs.length
+  let sumX := xs.foldl (· + ·) 0
+  let dProd := xs.foldl (fun dp a => if a * n == 0 then dp else dp * d / (a * n)) d
+  let ann := amp * n * C.A_PRECISION
+  let numerator := (ann * sumX / C.A_PRECISION + dProd * n) * d
+  let den := (ann - C.A_PRECISION) * d / C.A_PRECISION + (n + 1) * dProd
+  if den == 0 then d else numerator / den
+
+/-- the iteration of `calculate_d_core` with unbounded integers: (last iterate, converged?) after at
+    most `fuel` steps from `d` -/
+def dIterExact (amp : Nat) (xs : List Nat) : Nat → Nat → Nat × Bool
+  | 0, d => (d, false)
+  | fuel + 1, d =>
+    let dn := nextDExact amp xs d
+    if absDiff dn d ≤ 1 then (dn, true) else dIterExact amp xs fuel dn
+
+/-- C19 for the invariant value `d` the code returned for the (normalised) balances `xs` of a deposit:
+    within two units of the exact root inside the supported range; outside it, accepted only if the
+    iteration converged — "never settles on a wrong answer after failing to converge".
+    Recorded classes (known findings, both require `d` to be exactly the value the original algorithm
+    computes, so that any OTHER wrong value is still a violation):
+      F-14 `C19-d-accuracy-minor`: inside the range the integer Newton iteration ends in a rounding cycle or
+        stops within one unit of a slightly shifted fixpoint: 2 < |d − exact| ≤ 64 units;
+      F-15 `C19-nonconverged-accepted`: outside the range the 255 steps are exhausted and the last iterate is
+        returned although it is more than 64 units away from the exact root. -/
+def monDepositD (amp : Nat) (xs : List Nat) (d : Nat) : Verdict :=
+  if xs.any (· == 0) then none else
+  let n := xs.length
+  let e := Spec.dFloor (amp * n) xs
+  if absDiff d e ≤ 2 then none else
+  let (dm, conv) := dIterExact amp xs C.NEWTON_ITERATIONS (xs.foldl (· + ·) 0)
+  let mx := (listMax xs).getD 0
+  let mn := (listMin xs).getD 0
+  let inRange := 2 ≤ n && n ≤ 4 && 1 ≤ amp && amp ≤ 1000000 && mx ≤ 1000 * mn && mx ≤ 10 ^ 42
+  if d != dm then some "C19-d-wrong"
+  else if absDiff d e ≤ 64 then some "C19-d-accuracy-minor"
+  else if inRange then some "C19-d-accuracy"
+  else if conv then none
+  else some "C19-nonconverged-accepted"
+
 end MantraDex
